@@ -12,8 +12,10 @@ import traceback
 from . import build
 from .driver import Driver, DriverError, VERIF
 
-REPLAYS = os.path.join(VERIF, "replays")
-EVIDENCE = os.path.join(VERIF, "evidence")
+# VERIF_REPLAY_DIR / VERIF_EVIDENCE_DIR: used only by harness/tools (runs against scratch copies of the repo must not
+# overwrite the evidence of /repo); the registered commands never set them.
+REPLAYS = os.environ.get("VERIF_REPLAY_DIR") or os.path.join(VERIF, "replays")
+EVIDENCE = os.environ.get("VERIF_EVIDENCE_DIR") or os.path.join(VERIF, "evidence")
 KF_FILE = os.path.join(VERIF, "known_findings.json")
 
 TRUSTED_BASE = [
